@@ -721,7 +721,12 @@ fn filter_not(input: Span) -> IResult<Span, Option<Search>> {
     tag("NOT")
         .precedes(multispace1)
         .precedes(low_filter)
-        .map(|optk| optk.map(|k| Search::Not(Box::new(k))))
+        // `None` is the filter that selects every line (`*`): its negation selects no line
+        .map(|optk| {
+            Some(Search::Not(Box::new(
+                optk.unwrap_or_else(|| Search::And(vec![])),
+            )))
+        })
         .parse(input)
 }
 
@@ -763,16 +768,21 @@ fn sort(input: Span) -> IResult<Span, Operator> {
 }
 
 /// Combines the operands of an explicit AND / OR; an operand can be empty (e.g. `*`).
-fn combine_filters(
-    left: Option<Search>,
-    right: Option<Search>,
-    combine: fn(Vec<Search>) -> Search,
-) -> Option<Search> {
+// `None` stands for the filter that selects every line (`*`, `""`): it is the identity of AND ...
+fn and_filters(left: Option<Search>, right: Option<Search>) -> Option<Search> {
     match (left, right) {
-        (Some(l), Some(r)) => Some(combine(vec![l, r])),
+        (Some(l), Some(r)) => Some(Search::And(vec![l, r])),
         (Some(l), None) => Some(l),
         (None, Some(r)) => Some(r),
         (None, None) => None,
+    }
+}
+
+// ... and absorbs OR: `* OR x` selects every line
+fn or_filters(left: Option<Search>, right: Option<Search>) -> Option<Search> {
+    match (left, right) {
+        (Some(l), Some(r)) => Some(Search::Or(vec![l, r])),
+        _ => None,
     }
 }
 
@@ -805,7 +815,7 @@ fn mid_filter(input: Span) -> IResult<Span, Option<Search>> {
     Ok((
         input,
         match right {
-            Some(right) => combine_filters(left, right, Search::And),
+            Some(right) => and_filters(left, right),
             None => left,
         },
     ))
@@ -819,7 +829,7 @@ fn high_filter(input: Span) -> IResult<Span, Option<Search>> {
     Ok((
         input,
         match right {
-            Some(right) => combine_filters(left, right, Search::Or),
+            Some(right) => or_filters(left, right),
             None => left,
         },
     ))
